@@ -44,6 +44,43 @@ theorem wrap_rejects_undeclared (sh : ResultShape) : wrapResponse sh .other = no
     (∀ i v, sh.nExc ≤ i → wrapResponse sh (.exc i v) = none) :=
   ThriftVerif.Schema.wrap_rejects_undeclared sh
 
+/-- The three round trips as one statement: whatever `WrapResponse` accepts (other than the recorded
+nil-return boundary), `UnwrapResponse` maps back to exactly the response that was wrapped — so no
+two different responses share a result struct. -/
+theorem unwrap_inverts_wrap (sh : ResultShape) (r : Resp) (rv : ResultVal)
+    (hw : wrapResponse sh r = some rv) (hnil : ∀ v, r = .ok v → v.isNil = false) :
+    unwrapResponse sh rv = some r := by
+  cases r with
+  | ok v =>
+    have hr : sh.hasReturn = true := by
+      cases h : sh.hasReturn <;> simp [wrapResponse, h] at hw ⊢
+    have := wrap_unwrap_ok sh v hr (hnil v rfl)
+    rw [hw] at this; simpa using this
+  | void =>
+    have hr : sh.hasReturn = false := by
+      cases h : sh.hasReturn <;> simp [wrapResponse, h] at hw ⊢
+    have := wrap_unwrap_void sh hr
+    rw [hw] at this; simpa using this
+  | exc i v =>
+    have hi : i < sh.nExc := by
+      by_cases h : i < sh.nExc
+      · exact h
+      · simp [wrapResponse, h] at hw
+    have hv : v.isNil = false := by
+      cases h : v.isNil
+      · rfl
+      · simp [wrapResponse, hi, h] at hw
+    have := wrap_unwrap_exc sh i v hi hv
+    rw [hw] at this; simpa using this
+  | other => simp [wrapResponse] at hw
+
+theorem wrap_injective (sh : ResultShape) (r r' : Resp) (rv : ResultVal)
+    (hw : wrapResponse sh r = some rv) (hw' : wrapResponse sh r' = some rv)
+    (hnil : ∀ v, r = .ok v → v.isNil = false) (hnil' : ∀ v, r' = .ok v → v.isNil = false) : r = r' := by
+  have h1 := unwrap_inverts_wrap sh r rv hw hnil
+  have h2 := unwrap_inverts_wrap sh r' rv hw' hnil'
+  rw [h1] at h2
+  exact Option.some.inj h2
 /-- Boundary (recorded): a nil slice/map/struct return value cannot be unwrapped. -/
 theorem wrap_nil_return (sh : ResultShape) (hr : sh.hasReturn = true) :
     (wrapResponse sh (.ok .nil)).bind (unwrapResponse sh) = none :=
